@@ -48,3 +48,8 @@ add("C14","exploration",
  "Held on the operation histories, bursts and porcupine-checked concurrent phases counted in the evidence (MaxConnections 1, 3, 5).",
  "Trusted: x/crypto/ssh, porcupine v1.3.0; 'served' = answers a global request after authentication; client-side closes may linearize any time after their call.",
  "DESIGN.md §2 C14")
+add("C10","exploration",
+ "runtime monitoring: grammar-aware hostile-input generator; inputs are applied to fresh real ServerHandlers in crash-isolated worker processes (input logged before application) and sent over SSH to a real server while a canary session of another user and health logins observe liveness; oracle = process survival, canary stream intact, health answers OK",
+ "Held on the hostile inputs counted in the evidence (command x argument count x fault-class cells); no behavioural expectation beyond survival and an error/close for the offender.",
+ "Trusted: the harness SSH client; crash attribution names the culprit and its five predecessors.",
+ "DESIGN.md §2 C10")
